@@ -351,6 +351,7 @@ class GenInfo:
         self.needs_table_hints = False
         self.needs_layout_hints = []
         self.needs_pred_hints = []
+        self.opaque_consts = []
         self.lost = []             # (contract key, props) whose function no longer exists
         self.lost_ghosts = []
 
@@ -374,9 +375,24 @@ def render_file(path, module, moddir, ctx):
 
     # private constants become `pub` in the verified text (visibility only; needed when a derived - public, ghost -
     # denotation mentions them)
+    # a constant whose initialiser the verifier rejects (e.g. `(1 << BITS) - 1`: it cannot see that nothing overflows; rustc's
+    # const evaluator already refused to compile the crate if anything did) is left uninterpreted: `const NAME` in `opaque`
+    hidden = {}
+    for k in ctx.get('opaque', ()):
+        if k.startswith('const '):
+            for m in re.finditer(r'(?m)^[ \t]*((?:pub(?:\([^)]*\))?\s+)?(?:const|static)\s+%s\s*:)' % re.escape(k[len('const '):]), src):
+                if not any(a <= m.start(1) < b for a, b in sc.drop_spans):
+                    hidden[m.start(1)] = k
     for pos in sc.private_consts:
         if not any(a <= pos < b for a, b in sc.drop_spans):
-            edits.append(Edit(pos, pos, 'pub '))
+            if pos in hidden:
+                info.opaque_consts.append(hidden.pop(pos))
+                edits.append(Edit(pos, pos, '#[verifier::external_body] pub '))
+            else:
+                edits.append(Edit(pos, pos, 'pub '))
+    for pos, k in hidden.items():
+        info.opaque_consts.append(k)
+        edits.append(Edit(pos, pos, '#[verifier::external_body] '))
     for d in sc.derives:
         inside_drop = any(a <= d.start < b for a, b in sc.drop_spans)
         if inside_drop:
@@ -624,8 +640,9 @@ def render_file(path, module, moddir, ctx):
             bt = [t for t in body_tokens(src, f) if t.kind not in ('ws', 'lcomment', 'bcomment')]
             for bi in range(len(bt) - 1):
                 if bt[bi].kind == 'id' and bt[bi + 1].text == '(':
-                    via_self = bi >= 3 and bt[bi - 1].text == ':' and bt[bi - 2].text == ':' and bt[bi - 3].text == 'Self'
-                    called.add(('Self::' if via_self else '') + bt[bi].text)
+                    # `Q::name(`: keep the qualifier (Self or a type name) so that the call graph need not confuse every `new`
+                    qual = bt[bi - 3].text if bi >= 3 and bt[bi - 1].text == ':' and bt[bi - 2].text == ':' and bt[bi - 3].kind == 'id' else ''
+                    called.add((qual + '::' if qual else '') + bt[bi].text)
         owner_ty = f.owner.split(' for ')[-1]
         info.functions.append({'key': key, 'file': rel, 'has_body': f.has_body, 'has_contract': bool(c), 'props': props,
                                'calls': sorted(called), 'is_pub': src[f.sig_start:f.sig_start + 3] == 'pub' or ' for ' in f.owner,
